@@ -66,14 +66,14 @@ SealBegin(ver, purpose, key, claims, footer, aad) ==
   /\ (purpose = "public" => key \in DOMAIN pubOf)     \* a signing key's public half is known
   /\ op' = [kind |-> "seal", ver |-> ver, purpose |-> purpose, key |-> key, claims |-> claims,
             footer |-> footer, aad |-> aad,
-            fEnc |-> FALSE, cEnc |-> FALSE, failed |-> FALSE, rngFailed |-> FALSE]
+            fEnc |-> FALSE, cEnc |-> FALSE, failed |-> FALSE, rngFailed |-> FALSE, drawn |-> << >>]
   /\ UNCHANGED <<pubOf, tokens, blobs, used, last>>
 
-\* one draw from the random source; the environment may fail it
-Draw(ok) ==
-  /\ op.kind \in {"seal", "wrap"}
+\* one draw from the random source, yielding `val`; the environment may fail it
+Draw(ok, val) ==
+  /\ op.kind \in {"seal", "wrap", "gen"}
   /\ ~op.failed
-  /\ op' = [op EXCEPT !.failed = ~ok, !.rngFailed = ~ok]
+  /\ op' = [op EXCEPT !.failed = ~ok, !.rngFailed = ~ok, !.drawn = IF ok THEN Append(@, val) ELSE @]
   /\ UNCHANGED <<pubOf, tokens, blobs, used, last>>
 
 EncodeFooter(ok) ==
@@ -182,7 +182,7 @@ WrapBegin(wkind, ver, ktype, key, with) ==
   /\ wkind \in WrapKinds /\ ktype \in {"local", "secret"}
   /\ (wkind = "seal" => ktype = "local")
   /\ op' = [kind |-> "wrap", wkind |-> wkind, ver |-> ver, ktype |-> ktype, key |-> key, with |-> with,
-            failed |-> FALSE, rngFailed |-> FALSE]
+            failed |-> FALSE, rngFailed |-> FALSE, drawn |-> << >>]
   /\ UNCHANGED <<pubOf, tokens, blobs, used, last>>
 
 WrapEmit(blob, fresh) ==
@@ -220,6 +220,29 @@ Unwrap(wkind, ver, ktype, blob, with, ok, key, errc) ==
   /\ UNCHANGED <<pubOf, tokens, blobs, used, op>>
 
 (***************************************************************************)
+(* Key generation (C16): a generated key is fresh; no key after a failed   *)
+(* draw                                                                    *)
+(***************************************************************************)
+GenBegin(ver, kind) ==
+  /\ op = Idle
+  /\ op' = [kind |-> "gen", ver |-> ver, ktype |-> kind, failed |-> FALSE, rngFailed |-> FALSE, drawn |-> << >>]
+  /\ UNCHANGED <<pubOf, tokens, blobs, used, last>>
+
+GenEmit(key) ==
+  /\ op.kind = "gen" /\ ~op.failed
+  /\ key \notin used
+  /\ used' = used \cup {key}
+  /\ last' = [kind |-> "generated", key |-> key]
+  /\ op' = Idle
+  /\ UNCHANGED <<pubOf, tokens, blobs>>
+
+GenFail(errc) ==
+  /\ op.kind = "gen" /\ op.rngFailed /\ errc \in {"crypto", "key"}
+  /\ last' = [kind |-> "genfail", errc |-> errc]
+  /\ op' = Idle
+  /\ UNCHANGED <<pubOf, tokens, blobs, used>>
+
+(***************************************************************************)
 (* Invariants (evaluated in every state of the model and of every          *)
 (* recorded implementation trace)                                          *)
 (***************************************************************************)
@@ -247,7 +270,7 @@ InvUnwrap ==
 \* v1/v2 tokens never carry an assertion
 InvNoAadOnOldVersions == \A e \in tokens : e.aad # Empty => HasAssertions(e.ver)
 
-TypeOK == /\ op.kind \in {"idle", "seal", "unseal", "wrap"}
-          /\ last.kind \in {"none", "sealed", "sealfail", "released", "unsealerr", "wrapped", "wrapfail", "unwrapped"}
+TypeOK == /\ op.kind \in {"idle", "seal", "unseal", "wrap", "gen"}
+          /\ last.kind \in {"none", "sealed", "sealfail", "released", "unsealerr", "wrapped", "wrapfail", "unwrapped", "generated", "genfail"}
 
 =============================================================================
